@@ -187,3 +187,41 @@ Proof.
   exact (conj E (conj L' F')).
 Qed.
 Print Assumptions C20_round_key_cache_coherent.
+
+(* ---- patch_pypdf_fallback_aes(): installation into pypdf.  `body` / `guard` are translated from the
+   function's AST on every run (Gen/C20Patch.v); `install_ok body` is re-decided in C20/Inst.v. *)
+From S2T Require Import Lib.PyStr C20.Patch C20.PatchProofs.
+
+Example C20_install_ok_nonvacuous : install_ok required = true.
+Proof. vm_compute. reflexivity. Qed.
+Print Assumptions C20_install_ok_nonvacuous.
+
+(* on the fallback provider the patch returns True and, whatever the namespaces held before, afterwards the
+   four AES functions of all three pypdf namespaces are the built-in ones, CryptAES is the fallback class
+   and its __init__/encrypt/decrypt are the wrapper closures *)
+Theorem C20_patch_installs : forall guard body st, install_ok body = true ->
+  fst (run_patch guard body guard st) = true /\
+  forall r, In r required -> lookup (snd (run_patch guard body guard st)) (fst r) = Some (snd r).
+Proof. exact patch_installs. Qed.
+Print Assumptions C20_patch_installs.
+
+(* no other attribute of any namespace is touched, on any provider *)
+Theorem C20_patch_frame : forall guard body provider st k, install_ok body = true ->
+  existsb (fun r => key_eqb (fst r) k) required = false ->
+  lookup (snd (run_patch guard body provider st)) k = lookup st k.
+Proof. exact patch_frame. Qed.
+Print Assumptions C20_patch_frame.
+
+(* calling it again changes nothing observable (same return value, same binding of every attribute) *)
+Theorem C20_patch_idempotent : forall guard body provider st,
+  fst (run_patch guard body provider (snd (run_patch guard body provider st))) = fst (run_patch guard body provider st) /\
+  forall k, lookup (snd (run_patch guard body provider (snd (run_patch guard body provider st)))) k
+            = lookup (snd (run_patch guard body provider st)) k.
+Proof. exact patch_idempotent. Qed.
+Print Assumptions C20_patch_idempotent.
+
+(* with any other crypto provider: returns False, nothing is rebound *)
+Theorem C20_patch_not_applicable : forall guard body provider st,
+  str_eqb provider guard = false -> run_patch guard body provider st = (false, st).
+Proof. exact patch_not_applicable. Qed.
+Print Assumptions C20_patch_not_applicable.
